@@ -18,7 +18,12 @@ ActSeqs == [k \in DOMAIN Cat |-> SetToSeq(Acts(Cat[k], LVL))]
 ASSUME WriteActs == JsonSerialize(IOEnv.ACTS_FILE, ActSeqs)
 
 Init == \E k \in KINDS : kind = k /\ hist = <<>> /\ exps = <<>> /\ st = InitState(Cat[k]) /\ done = FALSE
+\* the abstract machine on the transition taken: a predicted refusal changes nothing; an assignment touches only the
+\* property and its declared coupling (TLC stops with this message otherwise)
+FrameSound(a, t) == /\ Expect(Cat[kind], st, a) = "refused" => t = st
+                    /\ \A q \in DOMAIN st : (q # a.p /\ q \notin Rng(Cat[kind].props[a.p].coupled)) => t[q] = st[q]
 Take(i) == LET a == ActSeqs[kind][i] IN
+           /\ Assert(FrameSound(a, ImplStep(Cat[kind], st, a)), <<"FrameSound violated", kind, a>>)
            /\ st' = ImplStep(Cat[kind], st, a)
            /\ hist' = Append(hist, i)
            /\ exps' = Append(exps, Expect(Cat[kind], st, a))
@@ -43,10 +48,6 @@ ASSUME CatOK == \A k \in DOMAIN Cat : LET K == Cat[k] IN \A i \in Idx(K) : LET d
          \* no value class is both demanded to be accepted and demanded to be refused
          /\ \A v \in InTokens(d, 1) \cup OutTokens(d, 1) : ~(MustAccept(d, v) /\ Judged(d, v))
          /\ \A v \in OutTokens(d, 1) : ~MustAccept(d, v)
-\* the abstract machine: a predicted refusal changes nothing; an assignment touches only the property and its declared coupling
-FrameSound == \A i \in DOMAIN ActSeqs[kind] : LET a == ActSeqs[kind][i]  t == ImplStep(Cat[kind], st, a) IN
-                /\ Expect(Cat[kind], st, a) = "refused" => t = st
-                /\ \A q \in DOMAIN st : (q # a.p /\ q \notin Rng(Cat[kind].props[a.p].coupled)) => t[q] = st[q]
 ASSUME PrintT(<<"DOMAIN", ToJson([kinds |-> Cardinality(KINDS),
                                   acts |-> FoldLeft(LAMBDA acc, k : acc + Len(ActSeqs[k]), 0, SetToSeq(KINDS)),
                                   leaves |-> FoldLeft(LAMBDA acc, k : acc + Len(ActSeqs[k]) ^ DEPTH, 0, SetToSeq(KINDS))])>>)
